@@ -139,7 +139,8 @@ func (w *world) expire(id int64) error {
 	}
 	// confirmed through the repository: what the SERVICE answers for this client is part of what is under test
 	cfg, err := cr.GetConfig(id)
-	if err != nil || !cfg.IsExpired() {
+	// (judged on the stored field, not through the model's own IsExpired helper)
+	if err != nil || cfg.ExpiresAt == nil || !time.Now().After(*cfg.ExpiresAt) {
 		return fmt.Errorf("could not expire client %d (cfg=%v err=%v)", id, cfg, err)
 	}
 	w.expired[id] = true
@@ -223,6 +224,13 @@ func (w *world) step(a Action) (*fail, string) {
 		}
 		w.banned = map[string]bool{}
 		return w.invariants("restart")
+	case "migrate":
+		// an administrator runs the credential migration (plaintext secret -> encrypted storage) for a
+		// client: it never creates a secret where there was none, nor changes who holds the key
+		if err := w.srv.Cloud.MigrateClientCredentials(w.ids[a.Client]); err != nil {
+			vkit.Class("migrate-refused")
+		}
+		return w.invariants("migrate")
 	case "rename":
 		// an administrator edits the client record (management API rename): it changes neither who
 		// holds the key nor whether the credentials have expired
@@ -553,7 +561,7 @@ func runCase(t vkit.TB, c Case) {
 }
 
 func genAction(t *rapid.T) Action {
-	kind := rapid.SampledFrom([]string{"first", "phase1", "phase1", "phase1", "phase2", "phase2", "phase2", "phase2", "phase2", "malformed", "ban", "blacklist", "expire", "ban-permanent", "blacklist-cidr", "blacklist-short", "sleep", "restart", "rename"}).Draw(t, "kind")
+	kind := rapid.SampledFrom([]string{"first", "phase1", "phase1", "phase1", "phase2", "phase2", "phase2", "phase2", "phase2", "malformed", "ban", "blacklist", "expire", "ban-permanent", "blacklist-cidr", "blacklist-short", "sleep", "restart", "rename", "migrate"}).Draw(t, "kind")
 	a := Action{Kind: kind, Conn: rapid.IntRange(0, nConns-1).Draw(t, "conn")}
 	a.Type = rapid.SampledFrom([]string{"", "control", "control", "tunnel"}).Draw(t, "type")
 	switch kind {
@@ -571,6 +579,8 @@ func genAction(t *rapid.T) Action {
 		}
 	case "rename":
 		a.Client = rapid.SampledFrom([]string{"A", "B", "E", "E", "K"}).Draw(t, "client")
+	case "migrate":
+		a.Client = rapid.SampledFrom([]string{"A", "K", "K", "K", "U"}).Draw(t, "client")
 	case "restart":
 		if rapid.IntRange(0, 1).Draw(t, "rare") != 0 {
 			a = Action{Kind: "phase2", Conn: a.Conn, Client: "A", Resp: "valid", Type: a.Type}
@@ -615,8 +625,11 @@ func TestEnumerated(t *testing.T) {
 		}
 		alpha = append(alpha, Action{Kind: "phase2", Conn: conn, Client: "A", Resp: "valid", Type: "tunnel"})
 		alpha = append(alpha, Action{Kind: "phase2", Conn: conn, Client: "K", Resp: "emptykey", Type: "control"})
+		if conn == 0 {
+			alpha = append(alpha, Action{Kind: "phase1", Conn: conn, Client: "K", Type: "control"})
+		}
 	}
-	alpha = append(alpha, Action{Kind: "ban", IP: 0}, Action{Kind: "expire", Client: "A"}, Action{Kind: "rename", Client: "A"})
+	alpha = append(alpha, Action{Kind: "ban", IP: 0}, Action{Kind: "expire", Client: "A"}, Action{Kind: "rename", Client: "A"}, Action{Kind: "migrate", Client: "K"})
 	depth := vkit.Pick(3, 4)
 	total := 1
 	for i := 0; i < depth; i++ {
